@@ -23,7 +23,7 @@ TypeInd ==
     /\ minOn \in MinTimes /\ minOff \in MinTimes
     /\ dl \in -1..3 /\ res \in {"ok", "err"}
     /\ xh \in [v : Toks, rem : -2..3]
-    /\ act \in [op : {"init", "write", "relinquish", "bad", "expire", "tick"}, p : {0, 1, 6, 16, 17, 255}, v : Toks \cup {"idx0", "x"}]
+    /\ act \in [op : {"init", "write", "relinquish", "bad", "expire", "tick", "obs", "unobs"}, p : {0, 1, 6, 16, 17, 255}, v : Toks \cup {"idx0", "x"}]
 
 Ind == TypeInd /\ PVIsHighest /\ SlotIsLastCommand /\ BadWriteRefused /\ MinOnOffHold /\ TimerIsHold
 =============================================================================
